@@ -49,6 +49,13 @@ def curve_class_roundtrip(mix, t, comp, P, unit, comps):
         elif not all(core.close(float(c2.permeances[0][i].value), float(q[i].value), core.ULP) for i in (0, 1)):
             v.append(core.viol("C09/reinversion", "re-inverting the fluxes gives %r, original %r" % (
                 (c2.permeances[0][0].value, c2.permeances[0][1].value), (q[0].value, q[1].value))))
+        # a permeate condition stated alongside permeances does not change what "built from permeances" means
+        for kwp in ({"permeate_temperature": t - 25.0}, {"permeate_pressure": 0.7}):
+            st, c4 = core.call(U.DiffusionCurve, mixture=mix, membrane_name="M", feed_temperature=t, feed_compositions=[comp], permeances=[pin], **kwp)
+            if st == "ok" and not all(core.close(float(c4.partial_fluxes[0][i]), P[i] * pf[i], 1e-11) for i in (0, 1)):
+                v.append(core.viol("C09/fluxes_from_permeances", "curve built from permeances with %r reports fluxes %r, permeance x feed partial pressure = %r" % (
+                    kwp, c4.partial_fluxes[0], (P[0] * pf[0], P[1] * pf[1]))))
+                break
         # both supplied: units still normalised
         st, c3 = core.call(U.DiffusionCurve, mixture=mix, membrane_name="M", feed_temperature=t, feed_compositions=[comp], permeances=[pin],
                            partial_fluxes=[(float(f[0]), float(f[1]))])
